@@ -373,7 +373,7 @@ def gen_optimize(rel, tree, src, qual, prefix, parts, faces):
     if ast.unparse(rhs) == "-" + env.b["valB"]:
         out.append("Definition %s_rhs (valB : cx) : cx := cneg OPS_ valB." % prefix)
     elif ast.unparse(rhs) == env.b["valB"]:
-        out.append("Definition %s_rhs (valB : cx) : cx := valB." % prefix)
+        out.append("Definition %s_rhs (valB : cx) : cx := let _ := OPS_ in valB." % prefix)
     else:
         T.fail(rel, rhs, "unsupported right-hand side of the first solve")
     env.b["res"] = ast.unparse(hits[0].targets[0])
@@ -710,7 +710,7 @@ def gen_laplacians(parts):
     if nst in ("Nabla.conj().transpose()", "Nabla.transpose().conj()", "Nabla.conj().T", "Nabla.T.conj()", "Nabla.getH()"):
         star = "cconj OPS_ z"
     elif nst in ("Nabla.transpose()", "Nabla.T"):
-        star = "z"
+        star = "let _ := OPS_ in z"
     else:
         T.fail(LAP, ns[0], "unsupported definition of Nabla_star")
     fin = body[-1]
